@@ -57,6 +57,10 @@ func mustEngine(repo, contracts string, overlay map[string][]byte) *Engine {
 		os.Exit(3)
 	}
 	eng.specs = specs
+	if err := specs.expandTemplates(eng); err != nil {
+		fmt.Fprintln(os.Stderr, "contracts:", err)
+		os.Exit(3)
+	}
 	eng.loadSecs = time.Since(t0).Seconds()
 	return eng
 }
